@@ -1641,6 +1641,8 @@ def walk_no_nested(fnode):
     while stack:
         n = stack.pop()
         yield n
+        if isinstance(n, (ast.FunctionDef, ast.Lambda, ast.ClassDef)):
+            continue                      # the body of a nested definition belongs to that definition
         for c in ast.iter_child_nodes(n):
             if isinstance(c, (ast.FunctionDef, ast.Lambda, ast.ClassDef)):
                 continue
@@ -1718,6 +1720,8 @@ def _store_names(t):
 
 
 def walk_no_nested_stmt(st):
+    if isinstance(st, (ast.FunctionDef, ast.Lambda, ast.ClassDef)):
+        return
     stack = [c for c in ast.iter_child_nodes(st)]
     while stack:
         n = stack.pop()
